@@ -67,6 +67,13 @@ func (ex *Exec) evalBool(e Expr, env *SpecEnv) Term {
 
 // loopEnv builds the environment for loop clauses: names resolve to current locals.
 func (ex *Exec) loopEnv(fr *Frame, li *loopInfo, st *State) *SpecEnv {
+	if fr.contract == nil && fr.loopOwner != nil && fr.loopOwner != fr && fr.loopOwner.entry != nil {
+		// a loop of a contract-less helper, annotated by the contract of the function it is inlined into:
+		// old() and fresh() refer to that function's entry
+		o := fr.loopOwner
+		old := &SpecEnv{vars: o.params, st: o.entry, lst: st, pkg: fnPkg(o.fn), fr: o, isOld: true, topOld: o.entry.top}
+		return &SpecEnv{vars: map[string]Val{}, st: st, lst: st, old: old, pkg: fnPkg(fr.fn), fr: fr, li: li, topOld: o.entry.top}
+	}
 	old := &SpecEnv{vars: fr.params, st: fr.entry, lst: st, pkg: fnPkg(fr.fn), fr: fr, li: li, isOld: true, topOld: fr.entry.top}
 	return &SpecEnv{vars: map[string]Val{}, st: st, lst: st, old: old, pkg: fnPkg(fr.fn), fr: fr, li: li, topOld: fr.entry.top}
 }
@@ -255,6 +262,17 @@ func (ex *Exec) specIdent(name string, env *SpecEnv) Val {
 	}
 	if name == "idx" && env.fr != nil && env.li != nil {
 		return Scalar{ex.loopIdx(env.fr, env.li, env.lst), types.Typ[types.Int]}
+	}
+	// inside a contract-less helper the annotation (written for the function the helper is inlined into) may name
+	// variables of the callers: they are still live in the shared state
+	if env.fr != nil && env.fr.contract == nil && env.fr.loopOwner != nil {
+		for f := env.fr; f != env.fr.loopOwner && f.parent != nil; f = f.parent {
+			if a := ex.findLocalAt(f.parent, nil, f.callPos, name); a != nil && isLocalCell(a) {
+				if v, ok := env.lst.locals[a]; ok {
+					return v
+				}
+			}
+		}
 	}
 	if obj := ex.prog.lookupObject("", name, env.pkg); obj != nil {
 		if v, ok := ex.objectVal(obj, env); ok {
@@ -713,11 +731,21 @@ func (ex *Exec) specCall(x ECall, env *SpecEnv) Val {
 				ex.specFail("idx takes a literal loop ordinal")
 			}
 			li = nil
-			for _, l := range env.fr.loops {
-				if fmt.Sprint(l.ord) == n.V {
-					li = l
+			lfr := env.fr
+			for f := env.fr; f != nil && li == nil; f = f.parent {
+				for _, l := range f.loops {
+					if fmt.Sprint(l.ord) == n.V {
+						li, lfr = l, f
+					}
+				}
+				if f.contract != nil {
+					break
 				}
 			}
+			if li == nil {
+				ex.specFail("idx(%s): no such loop", n.V)
+			}
+			return Scalar{ex.loopIdx(lfr, li, env.lst), intT}
 		}
 		if li == nil || env.fr == nil {
 			ex.specFail("idx() outside a loop")
@@ -855,8 +883,38 @@ func (ex *Exec) loopIdx(fr *Frame, li *loopInfo, st *State) Term {
 			}
 		}
 	}
+	// not a range loop: a counting loop "for i := ...; i < n; i++" - the variable tested in the header plays the part
+	// (if it does not count completed iterations, the invariants written with idx() are simply not provable)
+	if iff, ok := li.header.Instrs[len(li.header.Instrs)-1].(*ssa.If); ok {
+		if cmp, ok := iff.Cond.(*ssa.BinOp); ok {
+			for _, side := range []ssa.Value{cmp.X, cmp.Y} {
+				if ld, ok := side.(*ssa.UnOp); ok && ld.Op == token.MUL {
+					if a, ok := ld.X.(*ssa.Alloc); ok && isLocalCell(a) && storedInLoop(fr.fn, li, a) {
+						if v, ok := st.locals[a]; ok {
+							ex.vc.Assumptions[fmt.Sprintf("idx() of loop %d of %s read as the loop counter %s (the loop is no longer a range loop)", li.ord, fr.fn.Name(), a.Comment)] = true
+							return ex.scalar(v)
+						}
+					}
+				}
+			}
+		}
+	}
 	ex.specFail("idx(): loop %d is not a range loop", li.ord)
 	return Term{}
+}
+
+func storedInLoop(fn *ssa.Function, li *loopInfo, a *ssa.Alloc) bool {
+	for _, b := range fn.Blocks {
+		if !li.body[b.Index] {
+			continue
+		}
+		for _, in := range b.Instrs {
+			if s, ok := in.(*ssa.Store); ok && s.Addr == a {
+				return true
+			}
+		}
+	}
+	return false
 }
 
 func exprToType(e Expr) (TypeExpr, error) {
